@@ -1,0 +1,18 @@
+//go:build verif && (verif_all || verif_c11)
+// +build verif
+// +build verif_all verif_c11
+
+package gocql
+
+// Verification hooks (build tag `verif`) for the host selection policies, fifth file: HOST IDENTITY.
+// A HostInfo with an explicit native port (several nodes reachable through one connect address on
+// different ports: port mapping / NAT / local multi-node clusters) and an explicit host id (a node
+// that comes back under another address keeps its host id). Add-only.
+
+import "net"
+
+// VerifNewHostPort is VerifNewHost with the native port of the node given.
+func VerifNewHostPort(hostID string, addr net.IP, port int, dc, rack string, tokens []string) *HostInfo {
+	return &HostInfo{hostId: hostID, connectAddress: addr, rpcAddress: addr, peer: addr, port: port,
+		dataCenter: dc, rack: rack, tokens: tokens}
+}
